@@ -128,13 +128,23 @@ def c15(tier, seed):
 
 
 def c17(tier, seed):
+    r = _c17(tier, seed)
+    m = mcp_check(tier, seed)      # the MCP front-end: explain_matching / calculate_report figures against the CLI
+    r['findings'] += [f for f in m['findings'] if f['prop'] == 'C17']
+    r['coverage']['mcp_sessions'] = m['coverage'].get('sessions', 0)
+    r['coverage']['states'] += m['coverage']['states']
+    r['coverage']['transitions'] += m['coverage']['transitions']
+    return r
+
+
+def _c17(tier, seed):
     return combine([format_family(tier)], ['midpoints', 'values'],
                    'money values in thousandths of a pound (every half-penny midpoint in -3..3, magnitudes around every digit-count '
                    'boundary up to 2,000,000, each netted against a loss of 5.006 in the same tax year) placed in the slots of a '
                    'TaxReport and shown by the plain-text formatter, the JSON serialiser and the PDF (text runs of the compiled '
                    'document via the verif hook); expected strings come from Format.tla (RoundPence, Gbp, TaxYearLabel, DateUk); '
                    'every tax-year label 1900..2100; non-trivial = midpoint values',
-                   assumptions=['MCP front-end figures are compared with the CLI in the C20 check'])
+                   assumptions=['MCP front-end: calculate_report payloads are digest-compared with the CLI and explain_matching figures with the report (lib/vcheck/mcp.py)'])
 
 
 def c18(tier, seed):
